@@ -1,75 +1,6 @@
 //! C13 probe (end-to-end clause): trait methods marked to use integer results.
 #![allow(clippy::all, unused)]
-use cglue::result::IntError;
-use cglue::*;
-use core::num::NonZeroI32;
-
-#[derive(Clone, Copy, PartialEq, Eq, Debug)]
-pub struct Code(pub NonZeroI32);
-impl IntError for Code {
-    fn into_int_err(self) -> NonZeroI32 { self.0 }
-    fn from_int_err(e: NonZeroI32) -> Self { Code(e) }
-}
-pub type Res<T> = Result<T, Code>;
-
-pub struct Imp { pub ok: bool, pub val: u64, pub code: i32, pub calls: *mut u32 }
-unsafe impl Send for Imp {}
-unsafe impl Sync for Imp {}
-impl Imp {
-    fn tick(&self) { unsafe { *self.calls += 1 } }
-    fn err(&self) -> Code { Code(NonZeroI32::new(self.code).unwrap()) }
-}
-
-#[cglue_trait]
-#[int_result]
-pub trait WithInt {
-    fn payload(&self, a: u64) -> Result<u64, Code>;
-    fn empty(&self) -> Result<(), Code>;
-    #[no_int_result]
-    fn plain(&self, a: u64) -> Result<u64, Code>;
-    fn io(&self, a: u64) -> Result<u64, std::io::Error>;
-}
-impl WithInt for Imp {
-    fn payload(&self, a: u64) -> Result<u64, Code> { self.tick(); if self.ok { Ok(self.val ^ a) } else { Err(self.err()) } }
-    fn empty(&self) -> Result<(), Code> { self.tick(); if self.ok { Ok(()) } else { Err(self.err()) } }
-    fn plain(&self, a: u64) -> Result<u64, Code> { self.tick(); if self.ok { Ok(self.val ^ a) } else { Err(self.err()) } }
-    fn io(&self, a: u64) -> Result<u64, std::io::Error> { self.tick(); if self.ok { Ok(self.val ^ a) } else { Err(std::io::Error::from_raw_os_error(self.code)) } }
-}
-#[cglue_trait]
-#[int_result(Res)]
-pub trait WithAlias {
-    fn aliased(&self, a: u64) -> Res<u64>;
-    #[no_int_result]
-    fn aliased_plain(&self, a: u64) -> Res<u64>;
-}
-impl WithAlias for Imp {
-    fn aliased(&self, a: u64) -> Res<u64> { self.tick(); if self.ok { Ok(self.val ^ a) } else { Err(self.err()) } }
-    fn aliased_plain(&self, a: u64) -> Res<u64> { self.tick(); if self.ok { Ok(self.val ^ a) } else { Err(self.err()) } }
-}
-/// trait-level marker AND a method-level marker naming a different result alias: the method-level
-/// one decides for that method
-#[cglue_trait]
-#[int_result]
-pub trait Mixed {
-    fn plain_marked(&self, a: u64) -> Result<u64, Code>;
-    #[int_result(Res)]
-    fn alias_marked(&self, a: u64) -> Res<u64>;
-}
-impl Mixed for Imp {
-    fn plain_marked(&self, a: u64) -> Result<u64, Code> { self.tick(); if self.ok { Ok(self.val ^ a) } else { Err(self.err()) } }
-    fn alias_marked(&self, a: u64) -> Res<u64> { self.tick(); if self.ok { Ok(self.val ^ a) } else { Err(self.err()) } }
-}
-/// per-method opt-in
-#[cglue_trait]
-pub trait PerMethod {
-    #[int_result]
-    fn marked(&self, a: u64) -> Result<u64, Code>;
-    fn unmarked(&self, a: u64) -> Result<u64, Code>;
-}
-impl PerMethod for Imp {
-    fn marked(&self, a: u64) -> Result<u64, Code> { self.tick(); if self.ok { Ok(self.val ^ a) } else { Err(self.err()) } }
-    fn unmarked(&self, a: u64) -> Result<u64, Code> { self.tick(); if self.ok { Ok(self.val ^ a) } else { Err(self.err()) } }
-}
-
+mod defs;
+pub use defs::*;
 #[cfg(kani)]
 mod verif;
